@@ -8,3 +8,10 @@ import Glb.Proofs.Filter
 import Glb.Props.C11
 import Glb.Tie.Filter
 import Glb.Driver.Filter
+import Glb.Tie.TaskLane
+import Glb.Model.Strutil
+import Glb.Spec.PosixWords
+import Glb.Proofs.Strutil
+import Glb.Tie.Strutil
+import Glb.Props.C16
+import Glb.Driver.Strutil
